@@ -70,6 +70,10 @@ func checkC08(p *Program, r *Result) {
 		importRule(p, r, "C08.o", func(sub *Result) { checkSummaryOffsetsComplete(p, sub, isSink) }, nil)
 	}
 	checkTimeFoldOnEveryPath(p, r, "C08.t")
+	r.rule("C08.u", "Info is built from an iterator that restricts nothing", 1)
+	checkInfoFromUnrestrictedIterator(p, r, "C08.u")
+	r.rule("C08.h", "the cached Info is never filtered, sorted or appended to in place by a read (C03.h)", 1)
+	checkInfoReadOnlyAs(p, r, "C08.h")
 	r.rule("C08.s", "the statistics time range is updated exactly when a log time extends it", 2)
 	checkTimeFoldExact(p, r, "C08.s")
 
@@ -410,23 +414,32 @@ func checkInfoCompleteness(p *Program, r *Result) {
 	source := map[string]string{"Statistics": "statistics", "Channels": "channels", "Schemas": "schemas", "ChunkIndexes": "chunkIndexes",
 		"MetadataIndexes": "metadataIndexes", "AttachmentIndexes": "attachmentIndexes", "Footer": "footer", "Header": "header"}
 	set := map[string]string{}
-	ast.Inspect(fd.Body, func(n ast.Node) bool {
-		cl, ok := n.(*ast.CompositeLit)
-		if !ok {
-			return true
+	// the literal may live in an unexported method of Reader that Info delegates to
+	infoBodies := []*ast.FuncDecl{fd}
+	for fn, d := range g.decls {
+		if d.Recv != nil && d.Body != nil && !fn.Exported() && recvTypeName(g, d) == "Reader" {
+			infoBodies = append(infoBodies, d)
 		}
-		if nt, _ := structOf(g.info.TypeOf(cl)); nt == nil || nt.Obj().Name() != "Info" {
-			return true
-		}
-		for _, el := range cl.Elts {
-			if kv, ok := el.(*ast.KeyValueExpr); ok {
-				if k, ok := kv.Key.(*ast.Ident); ok {
-					set[k.Name] = types.ExprString(kv.Value)
+	}
+	for _, bd := range infoBodies {
+		ast.Inspect(bd.Body, func(n ast.Node) bool {
+			cl, ok := n.(*ast.CompositeLit)
+			if !ok {
+				return true
+			}
+			if nt, _ := structOf(g.info.TypeOf(cl)); nt == nil || nt.Obj().Name() != "Info" {
+				return true
+			}
+			for _, el := range cl.Elts {
+				if kv, ok := el.(*ast.KeyValueExpr); ok {
+					if k, ok := kv.Key.(*ast.Ident); ok {
+						set[k.Name] = types.ExprString(kv.Value)
+					}
 				}
 			}
-		}
-		return true
-	})
+			return true
+		})
+	}
 	for i := 0; i < infoT.NumFields(); i++ {
 		f := infoT.Field(i).Name()
 		val, ok := set[f]
@@ -489,5 +502,126 @@ func checkInfoCompleteness(p *Program, r *Result) {
 		} else {
 			r.violated("C08.c", "mcap.indexedMessageIterator.parseSummarySection", construct, p.pos(cc.Pos()), "the arm does not store into it."+table[t])
 		}
+	}
+}
+
+// C08.u: Info describes the file, not a selection. The iterator whose summary tables fill the Info literal is created
+// from options that restrict nothing: a ReadOptions literal that sets no topic list and no time bound. When the
+// function that builds Info receives the iterator as a parameter, every call site must pass such an iterator. An Info
+// built (and cached) from the iterator of a filtered read lists only the selected channels and the chunks inside the window.
+func checkInfoFromUnrestrictedIterator(p *Program, r *Result, rule string) {
+	restricting := map[string]bool{"Topics": true, "Start": true, "End": true, "StartNanos": true, "EndNanos": true}
+	var judge func(itv ssa.Value, depth int) (ok bool, why string)
+	judge = func(itv ssa.Value, depth int) (bool, string) {
+		if depth > 3 {
+			return false, "iterator origin too deep"
+		}
+		switch x := itv.(type) {
+		case *ssa.Call:
+			if calleeRepoName(x) != "mcap.Reader.indexedMessageIterator" || len(x.Call.Args) < 2 {
+				return false, "iterator is not created by Reader.indexedMessageIterator"
+			}
+			opts := x.Call.Args[1]
+			al, ok := opts.(*ssa.Alloc)
+			if !ok {
+				return false, "the iterator is created from " + valueLabel(opts) + ", not from a fresh ReadOptions literal"
+			}
+			for _, ref := range *al.Referrers() {
+				switch y := ref.(type) {
+				case *ssa.FieldAddr:
+					_, f, _, _ := fieldRef(y)
+					for _, r2 := range *y.Referrers() {
+						if _, isSt := r2.(*ssa.Store); isSt && restricting[f] {
+							return false, "the options of the iterator set " + f
+						}
+					}
+				case *ssa.Store:
+					if y.Addr == ssa.Value(al) {
+						return false, "the options of the iterator are copied from " + valueLabel(y.Val)
+					}
+				case ssa.CallInstruction:
+					if y != ssa.CallInstruction(x) {
+						return false, "the options are handed to " + trimPkg(staticCalleeName(y.Common())) + " before the iterator is created"
+					}
+				}
+			}
+			return true, ""
+		case *ssa.Parameter:
+			sites := p.staticCallers(x.Parent())
+			if len(sites) == 0 {
+				return false, "no caller found"
+			}
+			idx := -1
+			for i, q := range x.Parent().Params {
+				if q == x {
+					idx = i
+				}
+			}
+			for _, s := range sites {
+				if idx < 0 || idx >= len(s.Common().Args) {
+					return false, "argument not found"
+				}
+				if ok, why := judge(s.Common().Args[idx], depth+1); !ok {
+					return false, why + " (call at " + p.pos(s.Pos()) + ")"
+				}
+			}
+			return true, ""
+		case *ssa.Phi:
+			for _, e := range x.Edges {
+				if ok, why := judge(e, depth+1); !ok {
+					return false, why
+				}
+			}
+			return true, ""
+		}
+		return false, "iterator origin not recognised (" + valueLabel(itv) + ")"
+	}
+	n := 0
+	for _, fn := range methodsOf(p, pkgMcap, "Reader") {
+		if fn.Blocks == nil {
+			continue
+		}
+		var its []ssa.Value
+		seen := map[ssa.Value]bool{}
+		for _, in := range instrsOf(fn) {
+			st, ok := in.(*ssa.Store)
+			if !ok {
+				continue
+			}
+			if tn, _, _, ok := fieldRef(st.Addr); !ok || tn != "Info" {
+				continue
+			}
+			// the value comes from a field of an iterator (directly or through ToMap())
+			v := st.Val
+			if c, ok := v.(*ssa.Call); ok && len(c.Call.Args) > 0 {
+				v = c.Call.Args[0]
+			}
+			var base ssa.Value
+			if u, ok := v.(*ssa.UnOp); ok {
+				if tn, _, b, ok := fieldRef(u.X); ok && tn == "indexedMessageIterator" {
+					base = b
+				}
+			} else if tn, _, b, ok := fieldRef(v); ok && tn == "indexedMessageIterator" {
+				base = b
+			}
+			if base != nil && !seen[base] {
+				seen[base] = true
+				its = append(its, base)
+			}
+		}
+		for _, itv := range its {
+			n++
+			ok, why := judge(itv, 0)
+			construct := "Info is built from an iterator that restricts nothing"
+			if ok {
+				r.held(rule, funcName(fn), construct, p.pos(fn.Pos()), "the summary tables come from an iterator created with a ReadOptions literal that sets no topics and no time bound")
+			} else {
+				r.violated(rule, funcName(fn), construct, p.pos(fn.Pos()),
+					why+"; the Info that is built and cached would list only the channels, chunks and counts the selection of one read let through")
+			}
+		}
+	}
+	if n == 0 {
+		r.undecided(rule, "mcap.Reader", "Info literal", "", "no Reader method fills an Info from an iterator's tables")
 	}
 }
